@@ -170,6 +170,14 @@ def race(sp, rig="L", state="absent", actors=("create_A", "create_B_append"), K=
             rows = reader.current_rows(files, "a", loads=e.symjson.loads)
             exp = sorted((pre_rows or []) + [10 + i for i, k in enumerate(actors) if k in ("create_B_append", "append_noschema", "append_A") and res[i][0] == "ok"])
             sp.require(rows == exp, f"{tag}: rows {rows}, expected {exp} (outcomes {[res[i][0] for i in sorted(res)]}, schedule {trace})", {"sig": f"{tag}:rows"})
+            # schema-less appends use the PERSISTED schema - whatever schema the appending handle was constructed with: every data file of
+            # the current snapshot carries exactly the persisted columns
+            if fields:
+                cur = [x for x in md["snapshots"] if x["snapshot_id"] == md.get("current_snapshot_id")]
+                for pth, _ent in (reader.snapshot_files(files, cur[0]) if cur else []):
+                    cols = reader.pq.read_table(reader.io.BytesIO(files[pth])).column_names
+                    sp.require(list(cols) == list(fields), f"{tag}: data file {pth.rsplit('/', 1)[-1][:20]} was written with columns {list(cols)} but the "
+                               f"table's persisted schema is {fields} (schedule {trace})", {"sig": f"{tag}:data-file-with-foreign-schema"})
             creators_with_schema = [k for k in actors if k.startswith("create_") and k != "create_noschema"]
             # (an opener that auto-creates - Table(path) without schema, as the append actors do - is itself a schema-less creator)
             if pre_uuid is None and creators_with_schema and all(k.startswith("create_") and k != "create_noschema" or k == "load" for k in actors):
